@@ -36,7 +36,7 @@ MC = {
 # invariant again; exit 2 otherwise. These runs are not evidence: their states are not counted.
 MC_ASFOUND = {"C05": [("MC_Pt_asfound_c05.cfg", "MirrorOK")],
               "C06": [("MC_Pt_asfound_c06.cfg", "ContainedOK")],
-              "C18": [("MC_Pt_asfound_c18.cfg", "Sealed"), ("MC_Pt_asfound_c18fd.cfg", "HandlesOK")]}
+              "C18": [("MC_Pt_asfound_c18.cfg", "Sealed"), ("MC_Pt_asfound_c18fd.cfg", "HandlesOK"), ("MC_Pt_asfound_c18r.cfg", "SwitchesOK")]}
 
 
 def run_mc(ctx, pid):
